@@ -221,17 +221,11 @@ func isSideEffect(op string) bool {
 		op == "Common.GetOutbox" || op == "Fed.GetInbox" || strings.HasPrefix(op, "Delegate.")
 }
 
-// C07 — nothing happens before authentication, authorization and protocol checks.
-func C07(tier string) int {
-	res := NewResult("C07", tier, "exploration")
-	var cases []reqCase
-	forEachReqCase(func(c reqCase) { cases = append(cases, c) })
-	res.Rule = fmt.Sprintf("the full product {PostInbox,PostOutbox,GetInbox,GetOutbox,handler} x {social,federating,both; plus NewCustomActor over an application-written delegate with neither / social / federating / both protocols on, over reduced method, header and body alphabets} x authentication {ok,denied,error,error-with-true} x block {no,yes,error} x %d methods x %d header values x %d bodies, plus (authenticated, unblocked, GET / POST) every header value again with the header that is irrelevant for the method (Accept on a POST, Content-Type on a GET) carrying the ActivityStreams type or text/html = %d requests, each on a fresh world but in ONE process, after a warm-up with the odd-case spellings (a remembered answer would show); monitor over the seam call log; non-trivial = request classes (entry,kind,auth,block,method-ok,header-class,body-class) that reach a decision point", len(methods), len(headerVariants), len(bodyVariants()), len(cases))
-	res.Assumptions = []string{"header values marked 'either' (case variants, lists) are exempt from the handled/not-handled assertion but not from the monitors",
-		"a panic is C11's business and is not judged here"}
-	// before the product: one request per header value that differs from an accepted one only in letter
-	// case or decoration ('either' class). Whatever the library answers for those, it must not REMEMBER
-	// the answer for the canonical spellings (every request of the product runs in this same process).
+// warmUpOddCaseHeaders: before a request product runs, one request per header value that differs from
+// an accepted one only in letter case or decoration ('either' class). Whatever the library answers
+// for those, it must not REMEMBER the answer for the canonical spellings (the whole product runs in
+// this same process).
+func warmUpOddCaseHeaders() {
 	for _, h := range headerVariants {
 		if h.want != 2 {
 			continue
@@ -242,6 +236,17 @@ func C07(tier string) int {
 			sc.On(sc.World(), nil)
 		}
 	}
+}
+
+// C07 — nothing happens before authentication, authorization and protocol checks.
+func C07(tier string) int {
+	res := NewResult("C07", tier, "exploration")
+	var cases []reqCase
+	forEachReqCase(func(c reqCase) { cases = append(cases, c) })
+	res.Rule = fmt.Sprintf("the full product {PostInbox,PostOutbox,GetInbox,GetOutbox,handler} x {social,federating,both; plus NewCustomActor over an application-written delegate with neither / social / federating / both protocols on, over reduced method, header and body alphabets} x authentication {ok,denied,error,error-with-true} x block {no,yes,error} x %d methods x %d header values x %d bodies, plus (authenticated, unblocked, GET / POST) every header value again with the header that is irrelevant for the method (Accept on a POST, Content-Type on a GET) carrying the ActivityStreams type or text/html = %d requests, each on a fresh world but in ONE process, after a warm-up with the odd-case spellings (a remembered answer would show); monitor over the seam call log; non-trivial = request classes (entry,kind,auth,block,method-ok,header-class,body-class) that reach a decision point", len(methods), len(headerVariants), len(bodyVariants()), len(cases))
+	res.Assumptions = []string{"header values marked 'either' (case variants, lists) are exempt from the handled/not-handled assertion but not from the monitors",
+		"a panic is C11's business and is not judged here"}
+	warmUpOddCaseHeaders()
 	var mu sync.Mutex
 	type viol struct {
 		key, what string
